@@ -703,6 +703,7 @@ pub fn gen_invocation(
             } else {
                 None
             },
+            include_deps: None,
         },
         extra_entries: extra,
     }
